@@ -62,6 +62,9 @@ def schedules_for(n, rng, *, three_way: bool, nrandom: int):
         s += mp.splits3(n)
     if n > 1:
         s.append([1] * (n - 1))  # byte at a time
+    # empty pieces: a receive call that delivers nothing (cut points at 0, at the end, or coinciding) is still a
+    # split of the same bytes; only None means end of input
+    s += [[0], [n, 0], [max(1, n // 2), 0], [0, 1, 0]]
     s += mp.random_splits(rng, n, nrandom)
     return s
 
